@@ -17,6 +17,8 @@ CATALOGUE = {
     "kind": ({"type": "Choice", "empty": True, "rule": {"choices": ["a", "b"], "quoted": True}}, 1, ["a", "b", ""], ["q", "A"]),
     "amount": ({"type": "Decimal", "rule": {"items": [["0", "99.99", False]]}}, 6, ["1.5", "99.99", "0"], ["100", "1,5"]),
     "day": ({"type": "DateTime", "rule": {"parts": ["DD", "MM", "YYYY"], "seps": [".", "."]}}, 10, ["01.02.2000", "29.02.2024"], ["31.02.2000", "x"]),
+    "stamp": ({"type": "DateTime", "rule": {"parts": ["YYYY", "MM", "DD", "hh", "mm", "ss"], "seps": ["-", "-", " ", ":", ":"]}}, 19,
+              ["2021-03-06 00:00:00", "2021-03-06 13:14:15", "1999-12-31 23:59:59"], ["2021-03-06", "2021-13-06 00:00:00"]),
     "code": ({"type": "Pattern", "rule": {"tokens": ["a", "?", "c", "*"]}}, 5, ["abc", "aXcdd"], ["ab", "xbc"]),
     "tag": ({"type": "RegEx", "rule": {"ast": ["seq", [["+", ["set", False, "ab"]], ["lit", "c"]]]}}, 3, ["abc", "bc"], ["c", "xc"]),
     "const": ({"type": "Constant", "rule": {"token": "K", "style": "str"}}, 1, ["K"], ["k", "Q"]),
